@@ -22,6 +22,9 @@ def conditions(tier):
     for s1 in range(4):
         for ps in (False, True):
             cs.append(Cond("harness.stream", "stream_agrees", {"fix": {"s1": s1, "ps": ps}}, T=900, reach=["accepted"] + (["rejected"] if True else [])))
+    for s1 in (1, 2):
+        cs.append(Cond("harness.stream", "stream_agrees", {"fix": {"s1": s1, "ps": True}, "stop": True}, T=900, reach=["accepted", "rejected"],
+                       label="stream.stream_agrees[stop-at-first-error,s1=%d]" % s1))
     cs.append(Cond("harness.stream", "source_event_contract", T=300))
     cs.append(Cond("harness.stream", "twin_never_pickle", T=120, expect="cex"))
     return cs
